@@ -288,6 +288,8 @@ class Gen:
             lambda: {i: str(i) for i in range(r.choice((1001, 2500)))},
             lambda: {tuple(range(1100)): (frozenset(range(1100)), [set(range(1050))])},
             lambda: [tuple(range(40))] * 60,
+            # payloads beyond 64 KiB (an implementation may read those piecewise)
+            lambda: [b"b" * r.choice((65537, 100000)), "s" * 70000, {b"k" * 66000: "v" * 66000}],
         ]
         self._c("special")
         return shapes[i % len(shapes)]()
